@@ -444,6 +444,48 @@ func runAggregationOrigins(raw json.RawMessage, seed int64) (res Result) {
 	objs = append(objs, obj{"public key of an aggregated private key", askk.PublicKey(), new(big.Int).Mod(new(big.Int).Add(a, b), ref.R)})
 	m := w.Msg("m1")
 	H := w.HashPoint("kmac", "m1")
+	// RemoveBLSPublicKeys is subtraction in G2, whatever the relation between the keys: x - (-x) = 2x (a doubling), x - x = 0,
+	// 2x - x = x, x - y - (x - y) ...
+	{
+		neg := func(v *big.Int) *big.Int { return new(big.Int).Mod(new(big.Int).Neg(v), ref.R) }
+		mod := func(v *big.Int) *big.Int { return new(big.Int).Mod(v, ref.R) }
+		pkOf := func(v *big.Int, variant int) crypto.PublicKey { return w.SK(v).PublicKey() }
+		two := func(v *big.Int) *big.Int { return mod(new(big.Int).Lsh(v, 1)) }
+		type rm struct {
+			name string
+			from *big.Int
+			take []*big.Int
+		}
+		cases := []rm{
+			{"x - (-x)", a, []*big.Int{neg(a)}},
+			{"x - x", a, []*big.Int{a}},
+			{"2x - x", two(a), []*big.Int{a}},
+			{"x - (-x) - (-x)", a, []*big.Int{neg(a), neg(a)}},
+			{"x - y - (-y)", a, []*big.Int{b, neg(b)}},
+			{"(x+y) - (-x) - (-y)", mod(new(big.Int).Add(a, b)), []*big.Int{neg(a), neg(b)}},
+			{"x - 2x", a, []*big.Int{two(a)}},
+		}
+		for _, c := range cases {
+			want := new(big.Int).Set(c.from)
+			var lst []crypto.PublicKey
+			for _, tk := range c.take {
+				want.Sub(want, tk)
+				lst = append(lst, pkOf(tk, 0))
+			}
+			want.Mod(want, ref.R)
+			res.Evals++
+			got, err := crypto.RemoveBLSPublicKeys(pkOf(c.from, 0), lst)
+			if err != nil || !bytes.Equal(got.Encode(), w.G2Bytes(want)) {
+				add("RemovalInverse", fmt.Sprintf("RemoveBLSPublicKeys computing %s differs from the reference difference (err %v)", c.name, err))
+				continue
+			}
+			if want.Sign() != 0 {
+				if ok, err := got.Verify(H.Mul(want).Compress(), m.Data, w.Hasher("kmac", "m1")); !ok || err != nil {
+					add("RemovalInverse", fmt.Sprintf("the key computed as %s rejects the signature of its scalar (%v, %v)", c.name, ok, err))
+				}
+			}
+		}
+	}
 	// every object alone, every pair, and random triples / quadruples
 	var sets [][]int
 	for i := range objs {
